@@ -59,7 +59,109 @@ def all_shapes(tier):
 
 
 def jobs(tier, seed):
-    return [f"chunk{i}" for i in range(NCHUNK)]
+    return [f"chunk{i}" for i in range(NCHUNK)] + ['cross']
+
+
+def cross_text(d1, d2, kw, num):
+    base = f"Base DEFINITIONS {d1} ::= BEGIN Header ::= SEQUENCE {{ version [{num}] {kw} INTEGER, w [5] BOOLEAN }} Pair {{T}} ::= SEQUENCE {{ first [1] {kw} T, second [6] BOOLEAN }} END"
+    proto = f"Proto DEFINITIONS {d2} ::= BEGIN IMPORTS Header, Pair{{}} FROM Base; Message ::= SEQUENCE {{ body [2] OCTET STRING, COMPONENTS OF Header }} IntPair ::= Pair {{ INTEGER }} END"
+    return [base, proto]
+
+
+def judge_cross(items, d1, d2, kw, numsym, chk=None, pc=None):
+    """tags written in Base follow Base's default wherever the components end up (COMPONENTS OF an imported type, an
+    instantiated imported template); tags written in Proto follow Proto's"""
+    mods = {it.name: it for it in items if it.kind == 'mod'}
+    pm = mods.get('proto')
+    if pm is None:
+        return [('missing', 'module proto not generated')]
+    structs = {it.name: it for it in pm.items if it.kind == 'struct'}
+    fails = []
+    for st, field, dflt, k, num in (('Message', 'version', d1, kw, numsym), ('Message', 'w', d1, '', 5), ('Message', 'body', d2, '', 2), ('IntPair', 'first', d1, kw, 1), ('IntPair', 'second', d1, '', 6)):
+        it = structs.get(st)
+        f = next((x for x in (it.fields if it else []) if x.name == field), None)
+        if f is None:
+            fails.append(('missing', f"{st}.{field} not generated"))
+            continue
+        ritems = []
+        for a in f.attrs:
+            if a.path == 'rasn':
+                ritems.extend(a.items())
+        tag = read_tag(ritems)
+        want = expected_explicit(dflt, k, 'prim')
+        if tag is None or tag[0] == '?':
+            fails.append(('tag-missing', f"{st}.{field}: no tag rendered"))
+            continue
+        if tag[0] != want:
+            fails.append(('explicitness', f"{st}.{field}: tag rendered {'explicit' if tag[0] else 'implicit'}, but it is written {'with ' + k if k else 'without keyword'} in a module with {dflt} (used from a module with {d2})"))
+        if tag[1] != 'context':
+            fails.append(('class', f"{st}.{field}: class {tag[1]}"))
+        if chk is not None and not isinstance(num, int):
+            m = chk.holds(pc, to_bv(tag[2], 64) == num, 'tag-number') if tag[2] is not None else True
+            if m:
+                fails.append(('number', f"{st}.{field}: tag number differs from the source"))
+        elif isinstance(num, int) and tag[2] != num and not (chk is not None):
+            fails.append(('number', f"{st}.{field}: tag number {tag[2]}, source {num}"))
+    if chk is not None:
+        chk.res.obligations += 1
+        if not fails:
+            chk.res.discharged += 1
+    return fails
+
+
+def job_cross(prog, chk, tier):
+    gen = bridge.Gen(prog)
+    runner = native.Runner()
+    try:
+        for d1 in DEFAULTS[:3]:
+            for d2 in DEFAULTS[:3]:
+                for kw in KEYWORDS:
+                    srcs = cross_text(d1, d2, kw, PH)
+                    ra = runner.compile(srcs, backend='ir')
+                    sig = f"C03 cross-module written[{d1}] used[{d2}] kw[{kw or 'none'}]"
+                    if not ra.get('ok'):
+                        chk.res.inconclusive.append(f"{sig}: rejected natively")
+                        continue
+                    n = z3.BitVec('n', 64)
+
+                    def on_leaf(path, kind, conc):
+                        if kind[0] == 'int' and conc == PH:
+                            if kind[1] != 64:
+                                raise Unsupported(f"placeholder in {kind} at {path}")
+                            return n
+                        return conc
+
+                    def run(ex):
+                        out = []
+                        for m in ra['ir']:
+                            v = gen.load_module(ex, m['tlds'], on_leaf)
+                            out.append(gen.result_text(ex, gen.generate_module(ex, v)))
+                        return {'mods': out, 'ts': list(ex.ghost.get('to_string_ts', []))}
+                    for r in chk.explore(run):
+                        if r.kind == 'panic':
+                            chk.violation(sig + ' panic', f"generator panics: {r.value[0]}", {'kind': 'cross', 'd1': d1, 'd2': d2, 'kw': kw})
+                            continue
+                        if r.kind != 'ok':
+                            continue
+                        items = []
+                        for t in r.value['ts']:
+                            if t.toks and len(t.toks) > 2:
+                                its = tokproj.parse_items(t)
+                                if any(it.kind == 'mod' for it in its):
+                                    items.extend(its)
+                        fails = judge_cross(items, d1, d2, kw, n, chk, r.pc)
+                        for oracle, msg in fails:
+                            out = runner.compile(cross_text(d1, d2, kw, 7), backend='rasn')
+                            nf = [('native', 'native compile failed')] if not out.get('ok') else judge_cross(tokproj.project_text(out['generated']), d1, d2, kw, 7)
+                            if any(o == oracle for o, _ in nf):
+                                chk.violation(f"{sig} {oracle}", f"{msg}: {cross_text(d1, d2, kw, 7)}", {'kind': 'cross', 'd1': d1, 'd2': d2, 'kw': kw, 'oracle': oracle})
+                            else:
+                                chk.res.inconclusive.append(f"not reproduced natively: {sig} {oracle}: {msg}")
+                        chk.sample({'shape': sig})
+        chk.witness('cross-module shapes explored', True)
+    finally:
+        runner.close()
+    chk.res.bounds = {'cross': '3 defaults (defining module) x 3 defaults (using module) x 3 keywords; COMPONENTS OF an imported type and an instantiated imported template; one tag number symbolic'}
 
 
 def expected_explicit(default, kw, kind, pos=None):
@@ -184,6 +286,10 @@ def sig_of(shape, oracle):
 
 
 def run_job(prog, job, tier, seed):
+    if job == 'cross':
+        chk = Checker(prog, job)
+        job_cross(prog, chk, tier)
+        return chk.res
     i = int(job[5:])
     shapes = all_shapes(tier)[i::NCHUNK]
     chk = Checker(prog, job)
